@@ -578,6 +578,122 @@ def run_family(c):
 
 
 # ----------------------------------------------------------------------------
+# inst stream: callable INSTANCES (objects with __call__) - several value-equal but distinct ones, optionally
+# falsy (their class defines __len__ -> 0), decorated by ONE profiler directly and inside every wrapper kind
+def make_callable_class(eqhash, falsy):
+    ns = {}
+
+    def __init__(self, factor, journal):
+        self.factor = factor
+        self.journal = journal
+
+    def __call__(self, *args, **kw):
+        self.journal.append(len(args))
+        n = 3
+        for a in args:
+            if isinstance(a, int) and not isinstance(a, bool):
+                n = a
+        return self.factor * n
+    ns.update(__init__=__init__, __call__=__call__, __doc__='callable instance')
+    if eqhash:
+        ns['__eq__'] = lambda self, other: type(other) is type(self) and other.factor == self.factor
+        ns['__hash__'] = lambda self: hash(self.factor)
+    if falsy:
+        ns['__len__'] = lambda self: 0          # an "empty container" that can be called
+    return type('Scale', (), ns)
+
+
+INST_WRAPS = ['direct', 'partial', 'static', 'class', 'bound', 'partialmethod', 'property', 'cached']
+
+
+def inst_build(kind, obj):
+    if kind == 'direct':
+        return obj
+    if kind == 'partial':
+        return functools.partial(obj, 1)
+    if kind == 'static':
+        return staticmethod(obj)
+    if kind == 'class':
+        return classmethod(obj)
+    if kind == 'bound':
+        return types.MethodType(obj, type('Holder', (), {})())
+    if kind == 'partialmethod':
+        return functools.partialmethod(obj, 1)
+    if kind == 'property':
+        return property(obj)
+    if kind == 'cached':
+        return functools.cached_property(obj)
+    raise ValueError(kind)
+
+
+def typed(v):
+    return [type(v).__name__, v if isinstance(v, (int, float, str, type(None))) else None]
+
+
+def inst_exercise(kind, thing):
+    """use the (decorated or original) thing in every way its kind allows -> outcomes"""
+    outs = []
+
+    def rec(thunk):
+        try:
+            outs.append(['ret', typed(thunk())])
+        except BaseException as e:      # noqa
+            outs.append(['exc', type(e).__name__])
+    if kind in ('direct', 'partial', 'bound'):
+        rec(lambda: thing(4))
+        rec(lambda: thing())
+    else:
+        K = type('K', (), {'attr': thing})
+        if kind in ('static', 'class', 'partialmethod'):
+            if kind != 'partialmethod':
+                rec(lambda: K.attr(4))
+            rec(lambda: K().attr(4))
+            rec(lambda: K().attr())
+        else:
+            k = K()
+            rec(lambda: k.attr)
+            rec(lambda: k.attr)
+            rec(lambda: type(K.attr).__name__)
+    return outs
+
+
+def run_inst(c):
+    """c: factors (list), eqhash, falsy, wrap, prof, order ('each' | 'after')"""
+    cls = make_callable_class(c['eqhash'], c['falsy'])
+    sides = {}
+    for side in ('ref', 'got'):
+        prof = new_profiler(c['prof']) if side == 'got' else None
+        journals = [[] for _ in c['factors']]
+        objs = [cls(f, j) for f, j in zip(c['factors'], journals)]
+        outs = []
+        try:
+            things = []
+            for o in objs:
+                t = inst_build(c['wrap'], o)
+                if prof is not None:
+                    try:
+                        t = prof(t)
+                    except BaseException as e:      # noqa
+                        t = None
+                        outs.append(['wrap-failed', type(e).__name__])
+                things.append(t)
+                if c['order'] == 'each' and t is not None:
+                    outs.append(inst_exercise(c['wrap'], t))
+            if c['order'] != 'each':
+                for t in reversed(things):
+                    if t is not None:
+                        outs.append(inst_exercise(c['wrap'], t))
+            outs.append(['journals', [list(j) for j in journals]])
+            outs.append(['truthy', [bool(o) for o in objs]])
+            leaked = not tool_free()
+        finally:
+            if prof is not None:
+                force_free([prof])
+        sides[side] = outs
+    return dict(ref=sides['ref'], got=sides['got'], leaked=leaked)
+
+
+# ----------------------------------------------------------------------------
 # measured observation (not part of the verdict): where does an argument-binding TypeError of a
 # generator-like callable surface?
 def run_defer(c):
@@ -592,7 +708,7 @@ def run_defer(c):
 
 def run(payload):
     out = {}
-    for key, fn in (('nest', run_nest), ('desc', run_desc), ('meta', run_meta), ('reg', run_reg), ('family', run_family), ('defer', run_defer)):
+    for key, fn in (('nest', run_nest), ('desc', run_desc), ('meta', run_meta), ('reg', run_reg), ('family', run_family), ('inst', run_inst), ('defer', run_defer)):
         res = []
         for c in payload.get(key, []):
             try:
